@@ -123,3 +123,19 @@ Proof.
   intros mx live reqs Hw. rewrite (replay_states mx live reqs Hw).
   apply accepted_states_weights; [apply Winv_st0 | exact Hw].
 Qed.
+
+(* the replay does not look at the live active set: two replays with different fallbacks agree *)
+Lemma replay_live_irrelevant : forall mx live1 live2 reqs, wf_reqs mx reqs ->
+  replay mx live1 st0 (accepted mx st0 reqs) = replay mx live2 st0 (accepted mx st0 reqs).
+Proof.
+  intros mx live1 live2 reqs Hw.
+  rewrite (replay_states mx live1 reqs Hw), (replay_states mx live2 reqs Hw). reflexivity.
+Qed.
+
+(* replaying is idempotent on the accepted history: filtering an already-accepted history keeps all of it *)
+Lemma replay_length : forall mx live reqs, wf_reqs mx reqs ->
+  length (replay mx live st0 (accepted mx st0 reqs)) = length (accepted mx st0 reqs).
+Proof.
+  intros mx live reqs Hw. rewrite (replay_states mx live reqs Hw).
+  exact (proj1 (history_is_activations mx reqs)).
+Qed.
